@@ -14,6 +14,8 @@ import (
 type c04ReadCase struct {
 	Doc  ssaDoc       `json:"doc"`
 	Rend ssaRendering `json:"rendering"`
+	// Entry: 0 ReadFromSSA, 1 ReadFromSSAWithOptions without callbacks, 2/3 with one of the two callbacks only
+	Entry int `json:"entry,omitempty"`
 }
 
 type c04WriteCase struct {
@@ -27,7 +29,19 @@ func init() {
 
 func checkC04Read(c c04ReadCase) string {
 	b := renderSSA(c.Doc, c.Rend)
-	s, err := astisub.ReadFromSSA(bytes.NewReader(b))
+	var s *astisub.Subtitles
+	var err error
+	switch c.Entry {
+	case 1:
+		// no callbacks at all
+		s, err = astisub.ReadFromSSAWithOptions(bytes.NewReader(b), astisub.SSAOptions{})
+	case 2:
+		s, err = astisub.ReadFromSSAWithOptions(bytes.NewReader(b), astisub.SSAOptions{OnUnknownSectionName: func(string) {}})
+	case 3:
+		s, err = astisub.ReadFromSSAWithOptions(bytes.NewReader(b), astisub.SSAOptions{OnInvalidLine: func(string) {}})
+	default:
+		s, err = astisub.ReadFromSSA(bytes.NewReader(b))
+	}
 	if err != nil {
 		return fmt.Sprintf("reader rejected a well-formed document: %v\n--- document ---\n%s", err, clip(string(b), 1500))
 	}
@@ -39,11 +53,14 @@ func checkC04Read(c c04ReadCase) string {
 	want := c.Doc
 	if c.Rend.CommentInBody {
 		want.Comments = append([]string(nil), want.Comments...)
-		if len(c.Doc.Styles) > 0 {
+		if len(c.Doc.Styles) > 0 && !c.Rend.EventsFirst {
 			want.Comments = append(want.Comments, "a comment inside the styles section")
 		}
 		if len(c.Doc.Events) > 1 {
 			want.Comments = append(want.Comments, "a comment between events")
+		}
+		if len(c.Doc.Styles) > 0 && c.Rend.EventsFirst {
+			want.Comments = append(want.Comments, "a comment inside the styles section")
 		}
 	}
 	x := ssaExpect{margins: map[string]bool{}}
@@ -159,6 +176,7 @@ func c04Labels(d ssaDoc, r *ssaRendering) (bool, []string) {
 		add(r.Junk || r.UnknownSec, "junk-or-unknown-section")
 		add(r.EOL != "\n", "non-lf-eol")
 		add(r.OtherEvents, "non-dialogue-events")
+		add(r.EventsFirst, "events-before-styles")
 		add(r.StarStyle, "star-style-ref")
 		add(r.V4Plus, "v4plus-layout")
 		add(len(r.EventCols) < 10, "event-column-subset")
@@ -218,7 +236,7 @@ func TestC04(t *testing.T) {
 	rapidCheck(t, "C04/read", tier(3000, 300000), func(rt *rapid.T) {
 		doc, cols := genSSADoc(rt, false)
 		addEmptySSALines(rt, &doc)
-		c := c04ReadCase{Doc: doc, Rend: genSSARendering(rt, cols)}
+		c := c04ReadCase{Doc: doc, Rend: genSSARendering(rt, cols), Entry: rapid.SampledFrom([]int{0, 0, 1, 1, 2, 3}).Draw(rt, "entry")}
 		b := renderSSA(c.Doc, c.Rend)
 		nt, ls := c04Labels(c.Doc, &c.Rend)
 		ev.Case(nt, string(b), append(ls, "read")...)
